@@ -170,6 +170,23 @@ def check(ctx: Ctx) -> str:
     rets = astq.returns(tr.node)
     ctx.check(all(ast.unparse(r.value) == "s" or (isinstance(r.value, ast.BinOp) and isinstance(r.value.op, ast.Add) and ast.unparse(r.value.right) == "end") for r in rets), "truncate:end", "filters:do_truncate", "end appended",
               "a truncating return path does not append `end`", tr.loc())
+
+    ctx.rule("R7", "regexes of the text filters classify characters by Unicode rules: no re.ASCII / (?a) on a str pattern that uses \\w, \\s, \\d or \\b, except the reviewed protocol-level patterns")
+    ascii_ok = {("filters", "_attr_key_re"): "delimiters of an XML attribute name are ASCII by the HTML / XML specifications"}
+    nre = 0
+    for mod in ("filters", "utils"):
+        m = repo.module(mod)
+        for name, val in sorted(m.assigns.items()):
+            if not (isinstance(val, ast.Call) and astq.callee(val) in ("re.compile", "compile") and val.args):
+                continue
+            nre += 1
+            flags_txt = " ".join(ast.unparse(k.value) for k in val.keywords if k.arg == "flags") + (" " + ast.unparse(val.args[1]) if len(val.args) > 1 else "")
+            pat = val.args[0].value if isinstance(val.args[0], ast.Constant) and isinstance(val.args[0].value, str) else ""
+            asc = any(f in flags_txt.replace(" ", "").split("|") for f in ("re.ASCII", "re.A")) or "(?a" in pat
+            ctx.check(not asc or (mod, name) in ascii_ok, f"regex:{mod}:{name}", f"{mod}:<module>", f"`{name}` is compiled with re.ASCII",
+                      f"{mod}.{name} = {ast.unparse(val)[:80]} restricts \\w / \\s / \\b to ASCII: text in any other script is split or dropped (wordcount of 'привет мир' is 0, of 'naïve café' 3)", f"{m.rel}:{val.lineno}",
+                      detail={"regex": name, "flags": flags_txt.strip(), "reviewed": ascii_ok.get((mod, name))})
+    ctx.floor("module-level regexes in filters / utils", nre, 5)
     return __doc__ or ""
 
 
